@@ -4,6 +4,7 @@ from dataclasses import dataclass
 from itertools import count
 from types import CodeType
 
+from . import mro as _mro
 from .mro import sort_types
 from .recode import generate_dependent_dispatch
 from .utils import MISSING, subtler_type
@@ -151,6 +152,9 @@ class MultiTypeMap(dict):
                 candidates &= results.keys()
             for c in candidates:
                 specificities.setdefault(c, []).append(results[c])
+
+        if _mro._VERIF and _mro._verif_reorder is not None:
+            candidates = _mro._verif_reorder("candidates", list(candidates))
 
         candidates = [
             Candidate(
